@@ -1287,8 +1287,8 @@ inline std::vector<Spec> specs(int purpose, const std::string &tier, const std::
 {
 	std::vector<Spec> v;
 	bool thorough = tier == "thorough", c5 = purpose == 5;
-	auto want = [&](const char *f) { return fam.empty() || fam == f; };
-	unsigned sd = c5 ? 1 : (thorough ? 16 : 4);          // coin seeds per cell
+	auto want = [&](const char *f) { return fam.empty() || ("," + fam + ",").find(std::string(",") + f + ",") != std::string::npos; };
+	unsigned sd = c5 ? 1 : (thorough ? 64 : 8);          // coin seeds per cell
 	std::vector<GroupCfg> groups;
 	{
 		GroupCfg a = {256, 160, false, "s256"}, b = {512, 192, false, "s512"}, q = {256, 160, true, "qr256"}, d = {2048, 256, false, "default"};
@@ -1326,7 +1326,7 @@ inline std::vector<Spec> specs(int purpose, const std::string &tier, const std::
 			for (size_t ki = 0; ki < kap.size(); ki++)
 			{
 				unsigned K = kap[ki], ks = ksz[zi];
-				unsigned s2 = (K >= 80) ? 1 : (c5 ? 1 : (thorough ? 4 : 2));
+				unsigned s2 = (K >= 80) ? 1 : (c5 ? 1 : (thorough ? 16 : 4));
 				for (size_t type = 0; type < 4; type += (c5 ? 3 : 1))
 				{
 					if (K >= 80 && type != 2) continue;
@@ -1367,7 +1367,7 @@ inline std::vector<Spec> specs(int purpose, const std::string &tier, const std::
 			for (size_t ki = 0; ki < kap.size(); ki++)
 			{
 				unsigned K = kap[ki];
-				unsigned s2 = (K >= 80) ? 1 : (c5 ? 1 : (thorough ? 4 : 2));
+				unsigned s2 = (K >= 80) ? 1 : (c5 ? 1 : (thorough ? 16 : 4));
 				size_t nperm = c5 ? (thorough ? 4 : 3) : 4, nrot = c5 ? (thorough ? 4 : 3) : 6;
 				if (K >= 80) nperm = nrot = 2;
 				if (gi > 0 && !thorough) nperm = nrot = 3;
@@ -1388,15 +1388,33 @@ inline std::vector<Spec> specs(int purpose, const std::string &tier, const std::
 		}
 	}
 	// ---- Groth / Hoogh
+	// The public-coin and non-interactive SKC verifiers divide by the challenge e without excluding e = 0 (the interactive
+	// verifier re-draws e until it is non-zero): an honest run dies in assert(mpz_invert(bar, e, q)) with probability
+	// 2^-l_e (public coin: e = coin mod 2^l_e) resp. 2^-2l_e (Fiat-Shamir, l_e_nizk = 2 l_e).  To keep every verdict's
+	// error below 2^-40 those variants are exercised with l_e >= 64 resp. >= 32 only; the interactive one with all l_e.
+	auto le_ok = [](unsigned le, int mode) { return mode == 0 || (mode == 1 && le >= 64) || (mode == 2 && le >= 32); };
 	struct LeCfg { unsigned le, ps, qs; };
 	std::vector<LeCfg> les;
 	if (c5) { LeCfg a = {64, 320, 192}; les.push_back(a); }
 	else { LeCfg a = {8, 256, 160}, b = {16, 256, 160}, d = {32, 384, 160}, e = {64, 512, 192}; les.push_back(a), les.push_back(b), les.push_back(d), les.push_back(e); }
+	if (!c5 && thorough && (want("groth") || want("hoogh") || want("skc")))
+	{
+		// the library's default sizes once (2048/256 bit, l_e = 80): n = 3, one permutation / rotation, one seed
+		std::vector<size_t> p3 = perm_of(3, 4), r3 = rot_of(3, 1);
+		for (int mode = 0; mode < 3; mode++)
+		{
+			if (want("skc")) add_spec(v, "skc" + drv::str(mode) + ":default", 1, [p3, mode]() { return make_skc(skcworld(3, 80, 2048, 256), 3, p3, mode, true); });
+			if (want("groth")) add_spec(v, "vsshe" + drv::str(mode) + ":default", 1, [p3, mode]() { return make_shuffle(shworld(world(2048, 256), 3, 80), 0, mode, 3, p3); });
+			if (want("groth") && mode > 0) add_spec(v, "groth" + drv::str(mode) + ":default", 1, [p3, mode]() { return make_shuffle(shworld(world(2048, 256), 3, 80), 1, mode, 3, p3); });
+			if (want("hoogh")) add_spec(v, "vrhe" + drv::str(mode) + ":default", 1, [r3, mode]() { return make_shuffle(shworld(world(2048, 256), 3, 80), 2, mode, 3, r3); });
+			if (want("hoogh") && mode > 0) add_spec(v, "hoogh" + drv::str(mode) + ":default", 1, [r3, mode]() { return make_shuffle(shworld(world(2048, 256), 3, 80), 3, mode, 3, r3); });
+		}
+	}
 	if (want("skc"))
 		for (size_t li = 0; li < les.size(); li++)
 		{
 			LeCfg L = les[li];
-			size_t nmaxn = c5 ? (thorough ? 4 : 3) : (thorough ? 4 : 3);
+			size_t nmaxn = c5 ? (thorough ? 4 : 3) : 4;
 			for (size_t n = 2; n <= nmaxn; n++)
 				for (size_t extra = 0; extra < 2; extra++)
 					for (size_t pi = 0; pi < fact(n); pi++)
@@ -1408,9 +1426,10 @@ inline std::vector<Spec> specs(int purpose, const std::string &tier, const std::
 						for (int mode = 0; mode < 3; mode++)
 							for (int opt = 0; opt < 2; opt++)
 							{
+								if (!le_ok(L.le, mode)) continue;
 								if (c5 && extra == 1 && opt == 0) continue;
 								add_spec(v, "skc" + drv::str(mode) + ":o" + drv::str(opt) + ":le" + drv::str(L.le) + ":N" + drv::str(n + extra) + ":n" + drv::str(n) + ":p" + perm_str(p),
-									c5 ? 1 : (thorough ? 8 : 2), [L, n, extra, p, mode, opt]() { return make_skc(skcworld(n + extra, L.le, L.ps, L.qs), n, p, mode, opt != 0); });
+									c5 ? 1 : (thorough ? 32 : 4), [L, n, extra, p, mode, opt]() { return make_skc(skcworld(n + extra, L.le, L.ps, L.qs), n, p, mode, opt != 0); });
 							}
 					}
 		}
@@ -1418,7 +1437,7 @@ inline std::vector<Spec> specs(int purpose, const std::string &tier, const std::
 		for (size_t li = 0; li < les.size(); li++)
 		{
 			LeCfg L = les[li];
-			size_t nmaxn = c5 ? (thorough ? 4 : 3) : (thorough ? 4 : 3);
+			size_t nmaxn = c5 ? (thorough ? 4 : 3) : 4;
 			for (size_t n = 2; n <= nmaxn; n++)
 				for (size_t extra = 0; extra < 2; extra++)
 				{
@@ -1432,12 +1451,13 @@ inline std::vector<Spec> specs(int purpose, const std::string &tier, const std::
 							for (int proto = 0; proto < 2; proto++)
 								for (int mode = (proto == 1 ? 1 : 0); mode < 3; mode++)
 								{
+									if (!le_ok(L.le, mode)) continue;
 									if (c5 && extra == 1 && proto == 1) continue;
 									add_spec(v, std::string(proto == 0 ? "vsshe" : "groth") + drv::str(mode) + ":le" + drv::str(L.le) + ":N" + drv::str(n + extra) + ":n" + drv::str(n) + ":p" + perm_str(p),
-										c5 ? 1 : (thorough ? 8 : 2), [L, n, extra, p, proto, mode]() { return make_shuffle(shworld(world(L.ps, L.qs), n + extra, L.le), proto, mode, n, p); });
+										c5 ? 1 : (thorough ? 32 : 4), [L, n, extra, p, proto, mode]() { return make_shuffle(shworld(world(L.ps, L.qs), n + extra, L.le), proto, mode, n, p); });
 								}
 						}
-					if (want("hoogh") && extra == 0)
+					if (want("hoogh") && extra == 0 && li != 1)       // VRHE has no l_e: one run per distinct group
 						for (size_t r = 0; r < n; r++)
 						{
 							if (c5 && !thorough && n == 3 && r == 0) continue;
@@ -1445,10 +1465,10 @@ inline std::vector<Spec> specs(int purpose, const std::string &tier, const std::
 							for (int proto = 2; proto < 4; proto++)
 								for (int mode = (proto == 3 ? 1 : 0); mode < 3; mode++)
 									add_spec(v, std::string(proto == 2 ? "vrhe" : "hoogh") + drv::str(mode) + ":le" + drv::str(L.le) + ":n" + drv::str(n) + ":r" + drv::str(r),
-										c5 ? 1 : (thorough ? 8 : 2), [L, n, p, proto, mode]() { return make_shuffle(shworld(world(L.ps, L.qs), n, L.le), proto, mode, n, p); });
+										c5 ? 1 : (thorough ? 32 : 4), [L, n, p, proto, mode]() { return make_shuffle(shworld(world(L.ps, L.qs), n, L.le), proto, mode, n, p); });
 						}
 				}
-			if (want("hoogh") && !c5)
+			if (want("hoogh") && !c5 && li != 1)
 				for (size_t n = 5; n <= 6; n++)       // all rotations up to n = 6
 					for (size_t r = 0; r < n; r++)
 					{
